@@ -2,6 +2,7 @@
 // real layers stacked on identity<size1> (which returns the flat position it is asked for)
 // and through the static index functions.
 #include <cstdint>
+#include <sstream>
 #include <variant>
 #include <vector>
 
@@ -107,6 +108,15 @@ static void converted_rowmajor(uint64_t B)
     }
 }
 
+// the same field after a trip through its own dump: a reloaded field follows the same curve
+template <typename F>
+static F reload(const F & f)
+{
+    std::stringstream ss(std::ios::in | std::ios::out | std::ios::binary);
+    f.dump(ss);
+    return F(ss);
+}
+
 template <typename I, std::size_t N>
 struct RowMajor {
     using backend_t = cb::strided<cv::vector_d<I, N>, pos_backend>;
@@ -138,6 +148,7 @@ struct RowMajor {
     {
         std::string name = nm<I, N>("strided");
         if (!vh::selected(name)) return;
+        const std::string rname = name + ":reloaded";
         uint64_t ext[N], c[N];
         for (std::size_t k = 0; k < N; ++k) ext[k] = 1;
         // every extent vector in 1..B, every in-range coordinate
@@ -147,9 +158,12 @@ struct RowMajor {
             vh::set_case("%s extents=%s exhaustive", name.c_str(), vh::jarr(ext, N).c_str());
             field_t f(covfie::make_parameter_pack(typename backend_t::configuration_t(sizes), std::monostate{}));
             typename field_t::view_t v(f);
+            field_t g(reload(f));
+            typename field_t::view_t vg(g);
             for (std::size_t k = 0; k < N; ++k) c[k] = 0;
             for (;;) {
                 lookup(v, ext, c, name, true);
+                lookup(vg, ext, c, rname, true);
                 std::size_t k = 0;
                 while (k < N && ++c[k] >= ext[k]) {
                     c[k] = 0;
@@ -183,6 +197,8 @@ struct RowMajor {
             vh::set_case("%s extents=%s random", name.c_str(), vh::jarr(ext, N).c_str());
             field_t f(covfie::make_parameter_pack(typename backend_t::configuration_t(sizes), std::monostate{}));
             typename field_t::view_t v(f);
+            field_t g(reload(f));
+            typename field_t::view_t vg(g);
             for (unsigned q = 0; q < 24; ++q) {
                 for (std::size_t k = 0; k < N; ++k) {
                     switch (rng.below(5)) {
@@ -193,6 +209,7 @@ struct RowMajor {
                     }
                 }
                 lookup(v, ext, c, name, false);
+                lookup(vg, ext, c, rname, false);
             }
             if (r < 2) vh::sample(name, "extents=" + vh::jarr(ext, N) + " c=" + vh::jarr(c, N) + " position=" + std::to_string((uint64_t)ref::rowmajor(c, ext, N)), 2);
         }
